@@ -127,6 +127,16 @@ Aligned ==
 IndexSound ==
     \A i \in 1..Len(F.idx) : F.idx[i].len = Len(S[i]) /\ F.idx[i].lby > F.idx[i].lb /\ F.idx[i].lb >= 1
 
+\* closed-form family of the huge-file traces = the definition layer, for small parameters
+\* (constant-level; evaluated in the initial states of the empty files only)
+BigLemma ==
+    (m = MInit /\ nf = 0 /\ Len(F.data) = 0 /\ Len(F.idx) = 1 /\ F.idx[1].len = 0) =>
+        \A R \in {5, 10, 15} : \A hi \in 0..2 : \A lo \in 0..(R - 1) : \A n \in 0..6 :
+            LET L == 40  start == hi * R + lo IN
+            /\ start + n <= L => Expected(BigSeq(L), start, start + n) = BigExpected(lo, n)
+            /\ PairNorm(R, hi, lo + n) = <<(start + n) \div R, (start + n) % R>>
+            /\ \A h2 \in 0..2 : \A l2 \in 0..(R - 1) : PairLE(<<hi, lo>>, <<h2, l2>>) <=> (start <= h2 * R + l2)
+
 \* bulk yield = repeated single yields
 YieldLemma ==
     IterYieldEn(m) => /\ IterYieldN(m, 1) = IterYield(m)
